@@ -2,7 +2,7 @@ package main
 
 func init() {
 	register(PropSpec{ID: "C14", Harnesses: []HarnessSpec{
-		{Name: "estimate", Pkg: "chain", Files: []string{"chain/common.go", "chain/c12_units.go", "chain/c12_block.go", "chain/c14_estimate.go"}, Entry: "VerifC14Estimate", IntMode: true, LenAsSum: true, QueryMs: [2]int{60000, 120000},
+		{Name: "estimate", Pkg: "chain", Files: []string{"chain/common.go", "chain/c12_units.go", "chain/c12_block.go", "chain/c14_estimate.go"}, Entry: "VerifC14Estimate", IntMode: true, LenAsSum: true, QueryMs: [2]int{60000, 120000}, NoXCheck: true,
 			Reach: []string{"generated"},
 			Redirects: map[string]string{
 				"github.com/ava-labs/hypersdk/chain.NewTxData":       "c14NewTxData",
@@ -14,7 +14,7 @@ func init() {
 			Assumptions: []string{"AuthFactory contract: Address() is the actor and sponsor of the auth it signs, MaxUnits() = (len(auth.Bytes()), auth.ComputeUnits)",
 				"Rules.GetSponsorStateKeysMaxChunks() lists the chunk counts of the balance handler's SponsorStateKeys", "Action.StateKeys does not depend on the action ID",
 				"action and auth encodings are non-empty (they start with a type id)", "0 <= timestamp < 2^62"},
-			Outside: []string{"more than `maxActions` actions, action encodings longer than `maxActionBytes`, auth credentials longer than 256 bytes", "declared keys/symbolic compute units on more than the first two actions", "rule unit costs other than 1", "GenerateTransaction's MulSum(unitPrices, estimate) itself (overflow => no transaction is generated)"}},
+			Outside: []string{"more than `maxActions` actions, action encodings longer than `maxActionBytes`, auth credentials longer than 256 bytes", "declared keys/symbolic compute units on more than the first two actions", "rule unit costs other than 1", "quick tier: non-zero chain ID only (the zero chain ID makes the encoding shorter and is run in the thorough tier)", "GenerateTransaction's MulSum(unitPrices, estimate) itself (overflow => no transaction is generated)"}},
 		{Name: "sizemodel", Pkg: "chain", Files: []string{"chain/common.go", "chain/c12_units.go", "chain/c12_block.go", "chain/c14_estimate.go"}, Entry: "VerifC14SizeModel", IntMode: true, LenAsSum: true},
 	}})
 }
